@@ -37,7 +37,7 @@ def cases(draw):
     if draw(st.integers(0, 7)) == 0:
         recipe, params = draw(gen.resolution_case())
     else:
-        recipe = draw(gen.problem_recipe(densities=(10, 10, 6, 12), styles=True))
+        recipe = draw(gen.problem_recipe(densities=(10, 10, 6, 12), styles=True, offsets=True))
         iters = st.one_of(st.sampled_from([1, 2, 3, 30, 100, 300]), st.integers(5, 300))
         params = draw(gen.solver_params(recipe["n"], recipe["density"], iters, cheap=False))
     sp = draw(gen.start_points(recipe))
